@@ -737,6 +737,43 @@ func underLenK(d *declInfo, chain []ast.Node, coll string, k int64) bool {
 		}
 		return false
 	}
+	// guard clauses ahead of the statement: `if len(m) == 0 { return … }` and `if len(m) > 1 { return … }`
+	// (for k == 1) leave exactly len(m) == k
+	if k == 1 {
+		below, above := false, false
+		for i, y := range chain {
+			blk, isBlk := y.(*ast.BlockStmt)
+			if !isBlk || i+1 >= len(chain) {
+				continue
+			}
+			for _, st := range blk.List {
+				if st == chain[i+1] {
+					break
+				}
+				ifs, isIf := st.(*ast.IfStmt)
+				if !isIf || !terminates(ifs.Body) {
+					continue
+				}
+				be, isB := ifs.Cond.(*ast.BinaryExpr)
+				if !isB || normText(types.ExprString(be.X)) != want {
+					continue
+				}
+				v, isC := constOf(d.pkg, be.Y)
+				if !isC || !v.isInt() {
+					continue
+				}
+				switch {
+				case (be.Op == token.EQL && v.int() == 0) || (be.Op == token.LSS && v.int() == 1) || (be.Op == token.LEQ && v.int() == 0):
+					below = true
+				case (be.Op == token.GTR && v.int() == 1) || (be.Op == token.GEQ && v.int() == 2) || (be.Op == token.NEQ && v.int() == 1 && below):
+					above = true
+				}
+			}
+		}
+		if below && above {
+			return true
+		}
+	}
 	for i, y := range chain {
 		switch s := y.(type) {
 		case *ast.IfStmt:
